@@ -5,6 +5,8 @@ Operations:
   ('newsys',)          System()                       (at most `max_sys`)
   ('create', kind)     one asset of that kind, registered by its own constructor with whatever system is active
   ('simulate', i, d)   systems[i].simulate(d)          (RuntimeError expected unless i is the newest)
+  ('smt',)             System.simulate_multiple_times(f, 1, 0): one more System is created (inside the call) and simulated
+                       in this process; it is the most recently created one afterwards
   ('readd',)           newest.add_asset(x) for an asset x that is registered with it already (must change nothing)
 Reference: the list of assets each system should know, in creation order; an initialisation counter per asset fed by
 the logging wrapper around Asset.initialize (mc/line.py).
@@ -30,6 +32,14 @@ KINDS = ['source', 'handler', 'processor', 'buffer', 'gate', 'batcher', 'sink', 
 
 class SubSystem(System):
     '''A user subclass of System (same behaviour).'''
+
+
+_SMT_NAME = ['smt_sink']
+
+
+def _smt_fn(system, index):
+    Sink(_SMT_NAME[0], None)
+    system.simulate(1, print_summary=False)
 
 
 class _Hub:
@@ -79,6 +89,8 @@ class LifeWorld(CompWorld):
                 out.append(('simulate', i, d))
         if self.systems and self.ref[-1]:
             out.append(('readd',))
+        if len(self.systems) < self.max_sys:
+            out.append(('smt',))
         return self.restrict_first(out)
 
     # ------------------------------------------------------------------ globals
@@ -187,6 +199,19 @@ class LifeWorld(CompWorld):
                     if s.env.now != t0 + d:
                         raise Violation('clock', f'simulate({d}) from {t0} ended at {s.env.now}')
                     self.facts.append('simulated' if t0 == 0 else 'continued')
+            elif k == 'smt':
+                self.count += 1
+                _SMT_NAME[0] = f'smt_sink{self.count}'
+                res = System.simulate_multiple_times(_smt_fn, 1, 0)
+                if not isinstance(res, list) or len(res) != 1 or not isinstance(res[0], System):
+                    raise Violation('smt', f'simulate_multiple_times(f, 1, 0) returned {res}')
+                s = res[0]
+                self.systems.append(s)
+                self.ref.append([_SMT_NAME[0]])
+                if System._instance is not s:
+                    raise Violation('active_system', 'after an in-process simulate_multiple_times the System it created (the most '
+                                                     'recently created one) is not the active one')
+                self.facts.append('smt_in_process')
             elif k == 'readd':
                 s = self.systems[-1]
                 a = s._assets[len(s._assets) // 2]
@@ -227,6 +252,14 @@ class LifeWorld(CompWorld):
     def lookup(self, s):
         self.facts.append('lookup_checked')
         assets = list(s._assets)
+        # the caller does what it likes with a result list: the registry is not affected
+        for kw in ({}, {'subtype': Asset}):
+            got = s.find_assets(**kw)
+            if got is s._assets:
+                raise Violation('find_assets', f'find_assets({kw}) hands out the system\'s own list of assets')
+            got.clear()
+            if list(s._assets) != assets:
+                raise Violation('find_assets', f'clearing the list returned by find_assets({kw}) changed the registry')
         if not assets:
             if s.find_assets() != []:
                 raise Violation('find_assets', 'non-empty result on an empty system')
